@@ -36,7 +36,9 @@ RULE = ('(a) timers: op histories (register single/repeating with interval from 
         'clock), sub-millisecond distances to the deadline, early=1 if a callback runs before registration+interval; whole iterations in which a loop callback (RunInLoop) '
         'and/or a ready descriptor\'s on_data handler register timers (Model.runonce); 1..20 descriptors that stay ready while '
         'timers are pending (>= MAX_EVENTS: one epoll_wait batch per iteration); the same cases on the real ola::Clock '
-        'with clock_gettime interposed (CLOCK_MONOTONIC = controlled time, other monotonic ids lag up to a 4 ms tick).  non-trivial = at least one callback ran and at least one state-changing op (register/cancel) '
+        'with clock_gettime interposed (CLOCK_MONOTONIC = controlled time, other monotonic ids lag up to a 4 ms tick); intervals built through every '
+        'TimeInterval constructor and operator (from us, (sec,usec), ms, operator+, operator*), clock aimed at the denoted '
+        'deadline and at whole seconds before it.  non-trivial = at least one callback ran and at least one state-changing op (register/cancel) '
         'happened; distinct = distinct model output line.  (b) pollers: see gen_poller.py RULE.')
 ASSUMPTIONS = ['operator new does not fail',
                'callbacks honour the API contract: CancelTimeout is only called with the id of a timer that is '
@@ -345,6 +347,70 @@ def _real_clock_case(rng):
     return 'R ' + ';'.join(ops)
 
 
+def _iexp(rng, depth=0):
+    """an interval built with the TimeInterval constructors and operators (contract-respecting arguments)"""
+    k = rng.random()
+    if depth >= 2 or k < 0.45:
+        c = rng.random()
+        if c < 0.4:
+            return 'u%d' % rng.choice([0, 1, 999999, 1000000, 1000001, 200000, 250000, 1500000, 59999999, 3600000000])
+        if c < 0.7:
+            return 'p%d.%d' % (rng.choice([0, 1, 2, 59, 3600]), rng.choice([0, 1, 500000, 999999]))
+        return 'M%d' % rng.choice([0, 1, 200, 999, 1000, 1001, 2500, 60000])
+    if k < 0.8:
+        return '*%d(%s)' % (rng.choice([0, 1, 2, 3, 5, 10, 20, 60, 1000]), _iexp(rng, depth + 1))
+    return '+(%s)(%s)' % (_iexp(rng, depth + 1), _iexp(rng, depth + 1))
+
+
+def _iexp_us(e):
+    """denoted microseconds (for aiming the clock steps)"""
+    if e[0] == 'u':
+        return int(e[1:])
+    if e[0] == 'M':
+        return 1000 * int(e[1:])
+    if e[0] == 'p':
+        a, b = e[1:].split('.')
+        return int(a) * 1000000 + int(b)
+    if e[0] == '*':
+        i = e.index('(')
+        return int(e[1:i]) * _iexp_us(e[i + 1:-1])
+    # +(a)(b): split at the matching parenthesis
+    depth = 0
+    for i, ch in enumerate(e):
+        if ch == '(':
+            depth += 1
+        elif ch == ')':
+            depth -= 1
+            if depth == 0:
+                return _iexp_us(e[2:i]) + _iexp_us(e[i + 2:-1])
+    raise ValueError(e)
+
+
+def _interval_case(rng):
+    """timers whose interval is built through every TimeInterval constructor / operator; the clock is advanced to
+    the denoted deadline -1 s / -1 us / exactly / +1 us and to whole seconds before it"""
+    ops, pts = [], set()
+    for _ in range(rng.choice([1, 1, 2])):
+        e = _iexp(rng)
+        rep = rng.random() < 0.25 and _iexp_us(e) > 0
+        ops.append('e%d,%s' % (rep, e))
+        us = _iexp_us(e)
+        for p in (us - 1000000, us - 1, us, us + 1, us // 2, (us // 1000000) * 1000000, us - us % 1000000 - 1000000 + 999999,
+                  2 * us):
+            if p >= 0:
+                pts.add(p)
+    pts = sorted(pts)
+    if len(pts) > 8:
+        pts = sorted(rng.sample(pts, 8))
+    t = 0
+    ops.append('x')
+    for p in pts:
+        if p > t:
+            ops.append('a%d' % (p - t)); t = p
+        ops.append('x')
+    return rng.choice(['S ', 'S ', 'R ']) + ';'.join(ops)
+
+
 def _sleep_case(rng):
     """idle RunOnce(block interval) with the poller sleeping on the virtual clock: sub-millisecond distances to
     the next deadline (EPoller sleeps whole milliseconds, SelectPoller the exact time)"""
@@ -381,6 +447,8 @@ def gen_cases(rng, tier):
         yield _composition_case(rng)
     for _ in range(60 if quick else 2000):
         yield _busy_case(rng)
+    for _ in range(400 if quick else 20000):
+        yield _interval_case(rng)
     for _ in range(300 if quick else 20000):
         yield _real_clock_case(rng)
     for _ in range(400 if quick else 20000):
